@@ -125,6 +125,7 @@ type caseOut struct {
 	Unexplained bool        `json:"unexplained,omitempty"`  // a disagreement outside every recorded signature
 	Explain     *explain    `json:"explain,omitempty"`
 	Replay      *replayFile `json:"replay,omitempty"` // complete input of an unexplained case
+	Corpus      string      `json:"corpus,omitempty"` // the case comes from this corpus file
 }
 
 // comparison ------------------------------------------------------------------------------------------------
@@ -701,6 +702,8 @@ func runCase1(n int, di int, ds *dataset, u *upstream, sv *server, e exprCase, m
 					co.Known = addRule(co.Known, fOffAgg)
 				case rangeShorterThanStep(e.Expr, step) || (hasMatrixSelector(e.Expr) && fromSv.Err == "" && trailingLoss(fromSv, svr)):
 					co.Known = addRule(co.Known, fStepGtRange)
+				case hasVectorVectorBinop(e.Expr) && fromSv.Err == "" && extraPointsOnly(fromSv, svr):
+					co.Known = addRule(co.Known, fBinopNext)
 				default:
 					co.Unexplained = true
 				}
@@ -755,7 +758,7 @@ func main() {
 	case "run":
 		nds, _ := strconv.Atoi(os.Args[6])
 		ncases, _ := strconv.Atoi(os.Args[7])
-		rc = runAll(sv, nds, ncases)
+		rc = runAll(sv, nds, ncases, os.Args[8:])
 	case "replay":
 		rc = replay(sv, os.Args[6])
 	}
@@ -763,9 +766,42 @@ func main() {
 	os.Exit(rc)
 }
 
-func runAll(sv *server, nds, ncases int) int {
+func runAll(sv *server, nds, ncases int, corpus []string) int {
 	r := gen.FromEnv(18)
 	n := 0
+	// the corpus of minimised witnesses runs first, each in its own database
+	for ci, path := range corpus {
+		raw, err := os.ReadFile(path)
+		if err != nil {
+			fmt.Fprintln(os.Stderr, "FATAL corpus:", err)
+			return 3
+		}
+		var rf replayFile
+		if err := json.Unmarshal(raw, &rf); err != nil {
+			fmt.Fprintln(os.Stderr, "FATAL corpus:", path, err)
+			return 3
+		}
+		ds := rf.Dataset
+		ds.DB = fmt.Sprintf("corpus%d", ci)
+		u, err := newUpstream(&ds)
+		if err != nil {
+			fmt.Fprintln(os.Stderr, "FATAL upstream:", err)
+			return 3
+		}
+		if err := ingest(sv, &ds, r); err != nil {
+			fmt.Fprintln(os.Stderr, "FATAL ingest:", err)
+			return 3
+		}
+		if err := waitVisible(sv, &ds); err != nil {
+			fmt.Fprintln(os.Stderr, "FATAL visible:", err)
+			return 3
+		}
+		co := runCase(n, -1-ci, &ds, u, sv, rf.Spec, rf.Mode, rf.T, rf.Start, rf.End, rf.Step, false, r)
+		co.Corpus = path
+		gen.Emit(co)
+		n++
+		u.close()
+	}
 	for di := 0; di < nds; di++ {
 		dense := di%4 == 3
 		ds := genDataset(r.Fork(), fmt.Sprintf("prom%d", di), dense)
@@ -857,5 +893,9 @@ func replay(sv *server, path string) int {
 		co.Up, co.Sv = toJ(u.rangeq(rf.Spec.Expr, rf.Start, rf.End, rf.Step)), toJ(sv.rangeq(ds.DB, rf.Spec.Expr, rf.Start, rf.End, rf.Step))
 	}
 	gen.Emit(co)
+	if d := os.Getenv("C18_KEEP_SECONDS"); d != "" { // debugging aid: keep the server up for manual queries
+		k, _ := strconv.Atoi(d)
+		time.Sleep(time.Duration(k) * time.Second)
+	}
 	return 0
 }
